@@ -773,7 +773,7 @@ variant('b-reassembly-entry-kept', ['C03'], 'rsocket/frame_fragment_cache.py',
         """                frame = self._frame_fragment_builder(frame)""", ('C03.c', 'final'))
 variant('b-reassembly-metadata-into-data', ['C03'], 'rsocket/frame_fragment_cache.py',
         "            current_frame_from_fragments.metadata += next_fragment.metadata",
-        "            current_frame_from_fragments.metadata += next_fragment.data", ('C03.c', 'merge'))
+        "            current_frame_from_fragments.metadata += next_fragment.data", ('C03.c', 'metadata appended'))
 variant('b-frag-min-size-32', ['C03'], F, "MINIMUM_FRAGMENT_SIZE_BYTES = 64", "MINIMUM_FRAGMENT_SIZE_BYTES = 32",
         ('C03.e', 'gate'))
 variant('b-frag-gate-not-called', ['C03'], B,
@@ -1350,3 +1350,35 @@ variant('t-lease-drain-while-true', ['C14'], RB,
         "        while not self._request_queue.empty() and self._requester_lease.is_request_allowed():\n            self.send_frame(self._request_queue.get_nowait())\n            self._request_queue.task_done()",
         "        while True:\n            if self._request_queue.empty():\n                break\n            if not self._requester_lease.is_request_allowed():\n                break\n            self.send_frame(self._request_queue.get_nowait())\n            self._request_queue.task_done()",
         kind='twin')
+# ---- reassembly cache content, queue class (found by the mutation sweep)
+FC = 'rsocket/frame_fragment_cache.py'
+variant('b-cache-merge-call-dropped', ['C03', 'C01'], FC,
+        "            self._merge_frame_content_inplace(current_frame_from_fragments, next_fragment)", "            pass",
+        ('C03.c', 'appended in arrival order'))
+variant('b-cache-data-not-appended', ['C03'], FC,
+        "            current_frame_from_fragments.data += next_fragment.data", "            pass",
+        ('C03.c', 'data appended'))
+variant('b-cache-metadata-prepended', ['C03'], FC,
+        "            current_frame_from_fragments.metadata += next_fragment.metadata",
+        "            current_frame_from_fragments.metadata = next_fragment.metadata + current_frame_from_fragments.metadata",
+        ('C03.c', 'metadata appended'))
+variant('b-cache-final-fragment-alone', ['C03', 'C01'], FC,
+        "                frame = self._frame_fragment_builder(frame)\n", "", ('C03.c', 'append / final fragment'))
+variant('b-cache-nonfinal-overwrites', ['C03'], FC,
+        "            self._frames_by_stream_id[frame.stream_id] = self._frame_fragment_builder(frame)",
+        "            self._frames_by_stream_id[frame.stream_id] = frame", ('C03.c', 'append / non-final fragment'))
+QP = 'rsocket/queue_peekable.py'
+variant('b-peek-returns-tail', ['C05', 'C01'], QP, "        item = self._queue[0]", "        item = self._queue[-1]",
+        ('C05.f', 'peek_nowait'))
+variant('b-any-other-counts-itself', ['C05', 'C01'], QP,
+        "any(other is not item and predicate(other) for other in self._queue)",
+        "any(predicate(other) for other in self._queue)", ('C05.f', 'any_other'))
+variant('b-peek-does-not-wait', ['C05'], QP, "        while self.empty():\n            getter",
+        "        while not self.empty():\n            getter", ('C05.f', 'QueuePeekable.peek'))
+variant('t-any-other-explicit-loop', ['C05', 'C01'], QP,
+        "        return any(other is not item and predicate(other) for other in self._queue)",
+        "        for other in self._queue:\n            if predicate(other) and not (other is item):\n                return True\n        return False",
+        kind='twin')
+variant('t-any-other-filter-clause', ['C05', 'C01'], QP,
+        "        return any(other is not item and predicate(other) for other in self._queue)",
+        "        return any(predicate(queued) for queued in self._queue if queued is not item)", kind='twin')
